@@ -1457,7 +1457,7 @@ func c14tLogShapes(lt types.ChangeLogType) []c14tLogShape {
 		}
 	case account.AssetCodeLog:
 		return []c14tLogShape{
-			{"asset=typed-nil", "reachable: constructor yes (NewAssetCodeLog(..., nil) stores asset.Clone() == (*types.Asset)(nil)); tx executor no (asset_tx.go:66 always passes a non-nil asset)", false,
+			{"asset=typed-nil", "reachable: constructor yes (NewAssetCodeLog(..., nil) stores asset.Clone() == (*types.Asset)(nil)); tx executor no (asset_tx.go:66 always passes a non-nil asset)", true, // round-trips since /repo 4e3d12b
 				func(t *c14tState) (interface{}, interface{}, interface{}) {
 					var a *types.Asset
 					return a.Clone(), hashExtra(t), a.Clone()
@@ -1512,8 +1512,8 @@ func c14tLogShapes(lt types.ChangeLogType) []c14tLogShape {
 		}
 		emptyReach := "reachable: constructor yes (NewCandidateLog clones the argument: a nil/empty profile gives &Profile(nil)/&Profile{}); tx executor no (buildProfile always adds isCandidate/host/port keys)"
 		return []c14tLogShape{
-			mk("profile=nil-map", emptyReach, false, 0),
-			mk("profile=empty-map", emptyReach, false, 1),
+			mk("profile=nil-map", emptyReach, true, 0), // round-trip since /repo 29ca096
+			mk("profile=empty-map", emptyReach, true, 1),
 			mk("profile=1", yes, true, 2),
 			mk("profile=emptykv", yes, true, 3),
 			mk("profile=many", yes, true, 4),
@@ -1561,8 +1561,8 @@ func c14tLogShapes(lt types.ChangeLogType) []c14tLogShape {
 			}}
 		}
 		return []c14tLogShape{
-			mk("signers=nil", emptyReach, false, 0),
-			mk("signers=empty", emptyReach, false, 1),
+			mk("signers=nil", emptyReach, true, 0), // round-trip since /repo f02560a
+			mk("signers=empty", emptyReach, true, 1),
 			mk("signers=1", yes, true, 2),
 			mk("signers=many", yes, true, 3),
 		}
@@ -2737,13 +2737,10 @@ func (t *c14tState) checkMut(f *c14tFam, class string, b []byte) {
 	// accepts, the generic decoder (the one modelled and proved canonical) accepts too.
 	var gen interface{}
 	if gerr, gpan := c14tDec(b, &gen); gerr != nil || gpan != "" {
-		switch f.name {
-		case "asset", "accountdata", "changelog", "changelogs", "block", "blocks":
-			// custom DecodeRLP (Profile, ChangeLog payload decoders) ignore Stream.Kind errors: known laxness, see report
-			c.Count("info:" + f.name + "-typed-accepts-generic-rejects:" + class)
-		default:
-			t.fail("c14/"+f.name+"-typed-accepts-generic-rejects", "mutation "+class+": typed decoder accepts, rlp.DecodeBytes into interface{} says "+c14tErrStr(gerr, gpan), c14tHex(b))
-		}
+		// Before /repo 8a6b205 + a0389ea the custom DecodeRLP of Profile and the change-log payload decoders ignored the
+		// errors of Stream.Kind (families asset, accountdata, changelog, changelogs, block, blocks: finding profile/empty-form).
+		// Repaired: a typed decoder that accepts what the generic one rejects is a failure for EVERY family.
+		t.fail("c14/"+f.name+"-typed-accepts-generic-rejects", "mutation "+class+": typed decoder accepts, rlp.DecodeBytes into interface{} says "+c14tErrStr(gerr, gpan), c14tHex(b))
 	}
 	re, eerr, epan := c14tEnc(v)
 	c14TypedOp(c, f.name, b, true, re, eerr == nil && epan == "")
